@@ -120,6 +120,7 @@ def gen_history_step(rng, model: HistoryModel, tree: TreeModel, classes, swarm, 
         choices += ["undo_drop"] * w.get("undo_drop", 1) + ["undo_redo"] * w.get("undo_redo", 1)
     else:
         choices += ["undo"] * w.get("undo_empty", 1)
+    choices += ["set_limit"] * w.get("set_limit", 0)
     if model.redo:
         choices += ["redo"] * w.get("redo", 3) + ["redo_sel"] * w.get("redo_sel", 2)
     else:
@@ -141,6 +142,8 @@ def gen_history_step(rng, model: HistoryModel, tree: TreeModel, classes, swarm, 
         return {"op": "refactor", "kind": "rename", "path": rng.choice(files), "ident": rng.choice(gen.PROGRAM_IDENTS),
                 "occ": rng.randrange(4), "new": rng.choice(gen.NEW_IDENTS) + str(next_id), "id": next_id,
                 "docs": rng.random() < 0.2}
+    if k == "set_limit":
+        return {"op": "set_limit", "limit": rng.choice([0, 1, 2, 3, 5, 32])}
     if k == "undo_sel":
         return {"op": "undo_sel", "i": rng.randrange(len(model.undo)), "drop": rng.random() < 0.2}
     if k == "redo_sel":
@@ -188,6 +191,12 @@ def exec_history_step(world: World, model: HistoryModel, st, out=None):
             return StepResult(op, exc=e, info={"model_ok": True, "has_remove": _has_remove(rec["ops"])})
         model.do({"id": rec["id"], "desc": rec["desc"], "ops": rec["ops"]})
         return StepResult(op)
+    if op == "set_limit":
+        # the configured limit may change while a history exists; it is
+        # enforced when the next change is recorded
+        p.prefs.set("max_history_items", st["limit"])
+        model.limit = st["limit"]
+        return StepResult(op)
     if op == "refactor":
         changes = compute_refactoring(p, st)
         if changes is None or not changes.changes:
@@ -221,13 +230,27 @@ def exec_history_step(world: World, model: HistoryModel, st, out=None):
             idx = st["i"] % len(model.undo)
         deps = HistoryModel.closure(model.undo, idx if idx is not None else len(model.undo) - 1)
         has_remove = any(_has_remove(r["ops"]) for r in deps)
+        before = world.snapshot()
+        lists_before = ([c.description for c in h.undo_list], [c.description for c in h.redo_list])
         try:
             if idx is None:
                 undone = h.undo(drop=drop)
             else:
                 undone = h.undo(change=h.undo_list[idx], drop=drop) if idx < len(h.undo_list) else None
         except Exception as e:
-            return StepResult(op, exc=e, info={"has_remove": has_remove, "deps": len(deps)})
+            after = world.snapshot()
+            lists_after = ([c.description for c in h.undo_list], [c.description for c in h.redo_list])
+            return StepResult(op, exc=e, info={
+                "has_remove": has_remove, "deps": len(deps),
+                # a failed undo of a single change set must leave everything as it was
+                "single": len(deps) == 1,
+                # (a selective undo has by then moved the chosen change set to the
+                # end of the undo list: order is compared for plain undo only)
+                "unchanged": _vis(before) == _vis(after) and (
+                    lists_before == lists_after if idx is None
+                    else (sorted(lists_before[0]), lists_before[1]) == (sorted(lists_after[0]), lists_after[1])),
+                "diff": kernel.diff_trees(_vis(before), _vis(after)) if _vis(before) != _vis(after) else None,
+            })
         model.undo_sel(idx, drop=drop)
         return StepResult(op, info={
             "deps_model": [r["desc"] for r in reversed(deps)],
@@ -283,6 +306,11 @@ def exec_history_step(world: World, model: HistoryModel, st, out=None):
         return StepResult(op, info={"same": before == after, "diff": kernel.diff_trees(before, after) if before != after else None,
                                     "mid_changed": mid != before})
     raise kernel.HarnessError("unknown step %r" % (st,))
+
+
+def _vis(snap):
+    """Without ignored files (outside the history's protection)."""
+    return {k: v for k, v in snap.items() if not is_ignored_path(k)}
 
 
 def _has_remove(ops):
